@@ -85,6 +85,76 @@ def _untuple(fn):
     return fn
 
 
+def _fold_cond_assigns(fn):
+    """`if c: T = a` / `else: T = b` (one assignment to the same target on each side) written as `T = a if c else b`, in place"""
+    def fold(st):
+        if isinstance(st, ast.If) and len(st.body) == 1 and len(st.orelse) == 1:
+            a, b = st.body[0], fold(st.orelse[0])
+            a = fold(a)
+            if isinstance(a, ast.Assign) and isinstance(b, ast.Assign) and len(a.targets) == 1 and len(b.targets) == 1 \
+                    and isinstance(a.targets[0], (ast.Name, ast.Attribute)) and ast.dump(a.targets[0]) == ast.dump(b.targets[0]):
+                return ast.copy_location(ast.Assign(targets=[a.targets[0]], value=ast.copy_location(ast.IfExp(test=st.test, body=a.value, orelse=b.value), st)), st)
+        return st
+
+    def rec(node):
+        for fld in ("body", "orelse", "finalbody"):
+            b = getattr(node, fld, None)
+            if isinstance(b, list) and b and isinstance(b[0], ast.stmt):
+                out = []
+                for st in b:
+                    st = fold(st)
+                    if not isinstance(st, (ast.FunctionDef, ast.AsyncFunctionDef, ast.ClassDef)):
+                        rec(st)
+                    out.append(st)
+                setattr(node, fld, out)
+        for hd in getattr(node, "handlers", []) or []:
+            rec(hd)
+    rec(fn)
+    ast.fix_missing_locations(fn)
+    return fn
+
+
+def _inline_once_temps(fn):
+    """`v = E` directly followed by `T = v` / `return v`, v a local that occurs nowhere else in the function: `T = E` / `return E`,
+    in place (the value hoisted into a local just before its only use)"""
+    count = {}
+    for x in ast.walk(fn):
+        if isinstance(x, ast.Name):
+            count[x.id] = count.get(x.id, 0) + 1
+    params = {a.arg for a in ast.walk(fn.args) if isinstance(a, ast.arg)}
+
+    def rec(node):
+        for fld in ("body", "orelse", "finalbody"):
+            b = getattr(node, fld, None)
+            if isinstance(b, list) and b and isinstance(b[0], ast.stmt):
+                out = []
+                for st in b:
+                    if not isinstance(st, (ast.FunctionDef, ast.AsyncFunctionDef, ast.ClassDef)):
+                        rec(st)
+                    prev = out[-1] if out else None
+                    if isinstance(prev, ast.Assign) and len(prev.targets) == 1 and isinstance(prev.targets[0], ast.Name) and count.get(prev.targets[0].id) == 2 \
+                            and prev.targets[0].id not in params and isinstance(st, (ast.Assign, ast.Return)) and isinstance(st.value, ast.Name) and st.value.id == prev.targets[0].id:
+                        st.value = prev.value
+                        out[-1] = st
+                        continue
+                    out.append(st)
+                setattr(node, fld, out)
+        for hd in getattr(node, "handlers", []) or []:
+            rec(hd)
+    rec(fn)
+    return fn
+
+
+def straightened(pkg, cls, meth, keep=()):
+    """a private copy of method `cls.meth` for the rules that read one stored setting per statement: helpers put back, tuple
+    assignments split, `if c: T = a else: T = b` as a conditional expression, a value hoisted into a once-used local back in place"""
+    cache = pkg.__dict__.setdefault("_c20_straight", {})
+    key = (cls, meth, tuple(sorted(keep)))
+    if key not in cache:
+        cache[key] = _inline_once_temps(_fold_cond_assigns(_untuple(copy.deepcopy(pkg.expanded(cls, meth, keep=keep)))))
+    return cache[key]
+
+
 def _plain(pkg, cls, meth):
     """a private copy of method `cls.meth` as written, tuple assignments split (see _untuple)"""
     import copy
@@ -958,7 +1028,7 @@ def _r13(ctx, pkg):
     """BaseConfiguration.__init__ is the input stage of the writer: every setting it is handed is stored WHOLE in the field content()
     writes (the argument itself, a copy, an empty default when nothing was given).  A field computed by filtering the argument
     (`[s for s in required_species if s not in self._allowedspecies]`) writes less than what was configured."""
-    init = _plain(pkg, "BaseConfiguration", "__init__")
+    init = straightened(pkg, "BaseConfiguration", "__init__")
     params = {a.arg for a in init.args.args if a.arg != "self"}
     n = 0
     for st in init.body:
